@@ -1002,3 +1002,32 @@ Theorem rsync_stuck_after_cut_pinned : forall c0 c1 r,
   rsync_run (rs_clean (Some c0)) (firstn 3 (rsync_write_trace_pinned (rs_clean (Some c0)) c1)) = Some r ->
   r_current r = Some c1 /\ r_old r = Some c0 /\ forall c2, rsync_run r (rsync_write_trace_pinned r c2) = None.
 Proof. intros c0 c1 r H. simpl in H. inv H. split; [reflexivity|]. split; [reflexivity|]. intros c2. reflexivity. Qed.
+
+(** ** Two stores without a common transaction: a request cut after any number of steps and submitted again
+    completes iff its first step accepts having been applied already. *)
+Definition two_done : two := mkTwo true true.
+
+Theorem two_store_converges : forall o cut, idem_first o = true ->
+  two_state (two_resubmit o cut) = two_done /\ ((cut <= 1)%nat -> two_resubmit o cut = TOk two_done).
+Proof.
+  intros [f s] cut H. simpl in H. subst f. unfold two_resubmit.
+  destruct cut as [|[|c]]; simpl; try (split; [reflexivity|intros; reflexivity]).
+  destruct s; simpl; split; try reflexivity; intros; lia.
+Qed.
+
+Theorem two_store_refuted : forall o, idem_first o = false ->
+  two_resubmit o 1 = TRefused (mkTwo true false).
+Proof. intros [f s] H. simpl in H. subst f. reflexivity. Qed.
+
+(** remove_publisher as written converges at every cut; with the two stores swapped a cut between them is
+    final: every resubmission is refused while the content step never happened; create_publisher (access
+    first, duplicate refused) has the same shape. *)
+Theorem remove_publisher_converges : forall cut,
+  two_state (two_resubmit remove_publisher_op cut) = two_done /\ ((cut <= 1)%nat -> two_resubmit remove_publisher_op cut = TOk two_done).
+Proof. intros cut. apply two_store_converges. reflexivity. Qed.
+
+Theorem remove_publisher_swapped_stuck : two_resubmit remove_publisher_swapped 1 = TRefused (mkTwo true false).
+Proof. apply two_store_refuted. reflexivity. Qed.
+
+Theorem create_publisher_cut_between_stores_stuck : two_resubmit create_publisher_op 1 = TRefused (mkTwo true false).
+Proof. apply two_store_refuted. reflexivity. Qed.
